@@ -142,6 +142,26 @@ theorem cached_evaluate_transparent (o : V) (ho : D o) (s : St) (hinv : StoreInv
       · rw [entryLookup_insert_other hf] at hw
         exact hinv f w hw
 
+/-- **a failed evaluation stores nothing.** When the uncached outcome of `o` is a failure, the evaluation of the cached
+    node returns that failure and the entries of its cache are exactly what they were — after any history. -/
+theorem cached_failure_leaves_store (o : V) (ho : D o) (s : St) (hinv : StoreInv c D fp den s) (err : Err)
+    (hd : den o = .error err) (r : Except Err V) (s' : St) (h : cachedOp env run x c .evaluate o s = some (r, s')) :
+    r = .error err ∧ s'.E c = s.E c := by
+  obtain ⟨s1, h1, e1⟩ := fs_exists H o ho s
+  simp only [cachedOp, cacheLookup, bind_run, h1] at h
+  cases hl : entryLookup (fp o) (s.E c) with
+  | some w =>
+    -- impossible: an entry under `o`'s fingerprint would be a successful outcome of `o`
+    obtain ⟨o', ho', hfp, hden⟩ := hinv _ _ hl
+    rw [H.sufficient o o' ho ho' hfp.symm, hden] at hd
+    cases hd
+  | none =>
+    simp only [hl, Option.isSome_none, Bool.false_eq_true, if_false, pure_run, bind_run] at h
+    obtain ⟨s2, h2, e2⟩ := H.inner o ho s1
+    simp only [h2, hd, Option.some.injEq, Prod.mk.injEq] at h
+    obtain ⟨rfl, rfl⟩ := h
+    exact ⟨rfl, by rw [e2, e1]⟩
+
 /-- **memoization is effective (1).** After a successful evaluation on `o` the store holds `o`'s outcome under `o`'s
     fingerprint. -/
 theorem cached_evaluate_stores (o : V) (ho : D o) (s : St) (hinv : StoreInv c D fp den s) (v : V) (hv : den o = .ok v)
